@@ -47,14 +47,10 @@ pub fn run(_env: &Env, run: &Run) -> (Stats, Coverage) {
     }));
 
     // structural families: pumped runs a^k b / b a^k / a^k b a (k around 8, 16, 32, 64 and, for a
-    // few symbols, 128..1025) and every ASCII character at every offset of 7..33-byte ASCII strings
-    let fam = {
-        let mut v = pumped(&sigma, &PUMP_LENGTHS);
-        v.extend(pumped(&sigma[..sigma.len().min(6)], &PUMP_LENGTHS_LONG));
-        v.extend(ascii_blocks());
-        v
-    };
-    st.merge(run_family(&fam, |s, st| visit(s, st)));
+    // few symbols, 128..1025) every ASCII character at every offset of 7..33-byte
+    // ASCII strings (two fillers), alphabet symbols alone and in pairs inside 16..41-byte ASCII strings,
+    // all of them at every address residue modulo 8 / 16 (sub-slices of a larger buffer)
+    st.merge(run_structural(&sigma, run.tier, |s, st| visit(s, st)));
     st.merge(cpsweep_sequential(|c, st| {
         visit(&from_cps(&[c as u32]), st);
         visit(&from_cps(&[0x41, c as u32]), st);
